@@ -330,7 +330,7 @@ def prog_C13(ctx):
 
 
 def prog_C14(ctx):
-    generic(ctx, ['Dc4bcVerif.Props.C14', 'Dc4bcVerif.Props.C14Rounds', 'Dc4bcVerif.Props.C15'], 'nodediff', 'node', ['C14'], NODE_TRUSTED +
+    generic(ctx, ['Dc4bcVerif.Props.C14', 'Dc4bcVerif.Props.C14Rounds', 'Dc4bcVerif.Props.C15', 'Dc4bcVerif.Props.SrcFacts'], 'nodediff', 'node', ['C14'], NODE_TRUSTED +
             ['translator: for every method of BaseOperationRepo whether it holds the repository mutex for its whole body and which repository/state calls it makes (Gen/Locks.lean), regenerated on every run; repo_rmw_locked is kernel-evaluated over it',
              'scheddiff: an API request and a poll tick of one real node run as two goroutines over the SAME services; every call on the state store or the board first asks a scheduler, which executes a plan with up to three pre-emptions (a thread that blocks on a lock held by the other is detected by a 60 ms timeout and the holder is resumed); the final state (pool, tombstones, rounds, signatures, offset, posted messages) must be that of one of the two serial orders, computed on the same snapshot',
              'assumed: Go mutexes give mutual exclusion and the memory model makes a locked read-modify-write one atomic step (the Lean pool operations put/del are such steps); LevelDB single Put/Get are atomic'],
